@@ -552,7 +552,7 @@ impl Scenario for CrashScenario {
     }
     fn cases(&self, tier: Tier) -> u64 {
         match tier {
-            Tier::Quick => 1_200,
+            Tier::Quick => 3_000,
             Tier::Thorough => 20_000,
         }
     }
